@@ -6,15 +6,20 @@ Fields written to seeded/<name>/meta.json: checks_run_against_it, caught_by (con
 (VIOLATION ... no-failing-input-found), silent."""
 import json, os, re, subprocess, sys
 
+tier = []
+if "--tier" in sys.argv:
+    i = sys.argv.index("--tier")
+    tier = sys.argv[i:i + 2]
+    del sys.argv[i:i + 2]
 name, ids = sys.argv[1], sys.argv[2:]
 d = f"/verif/seeded/{name}"
 meta = json.load(open(f"{d}/meta.json"))
 lines = meta.get("checks_run_against_it", [])
 if ids:
-    out = subprocess.run([sys.executable, "/verif/tools/mutrun.py", f"{d}/patch.diff"] + ids, capture_output=True, text=True).stdout
-    new = [l for l in out.split("\n") if re.match(r"^C\d\d exit=", l)]
+    out = subprocess.run([sys.executable, "/verif/tools/mutrun.py", f"{d}/patch.diff"] + ids + tier, capture_output=True, text=True).stdout
+    new = [l + (" [tier thorough]" if tier else "") for l in out.split("\n") if re.match(r"^C\d\d exit=", l)]
     got = {l[:3] for l in new}
-    lines = [l for l in lines if l[:3] not in got] + new
+    lines = [l for l in lines if l[:3] not in got or (bool(tier) != ("[tier thorough]" in l))] + new
     print(out[:3000])
 meta["checks_run_against_it"] = lines
 caught, tie, silent = [], [], []
